@@ -2,7 +2,9 @@
 package main
 
 import (
+	"encoding/json"
 	"fmt"
+	"time"
 	"math/big"
 	"runtime"
 	"sync"
@@ -102,7 +104,12 @@ func checkCompact(c uint32, r *res) {
 	if canon != c {
 		r.noncan++
 	}
-	// work: 0 for non-positive targets, else floor(2^256/(t+1))
+	// work: 0 for non-positive targets, else floor(2^256/(t+1)); in the exhaustive tier the (expensive) exact work value is
+	// compared for every workStride-th compact value, the monotonicity sweep below covers every canonical target
+	if workStride > 1 && c%workStride != 0 {
+		r.stratum(c, d, canon)
+		return
+	}
 	w := difficulty.CalcWork(c)
 	if rd.Sign() <= 0 {
 		if w.Sign() != 0 {
@@ -114,6 +121,12 @@ func checkCompact(c uint32, r *res) {
 			r.fail(c, fmt.Sprintf("CalcWork(%#08x)=%s want %s", c, w, want))
 		}
 	}
+	r.stratum(c, d, canon)
+}
+
+var workStride uint32 = 1
+
+func (r *res) stratum(c uint32, d *big.Int, canon uint32) {
 	if d.Sign() != 0 {
 		k := (c >> 24) << 2
 		if c&0x00800000 != 0 {
@@ -196,12 +209,20 @@ func run(c *lib.Ctx) {
 			merge(r)
 		})
 	} else {
+		// all 2^32 values, split over child processes (separate heaps: the work is allocation-bound and one shared
+		// garbage collector does not scale over 16 goroutines)
 		c.Exhaustive(true)
-		lib.Parallel(4096, workers, func(chunk int) {
-			r := &res{strata: map[uint32]struct{}{}}
-			base := uint64(chunk) << 20
-			for i := uint64(0); i < 1<<20; i++ {
-				checkCompact(uint32(base+i), r)
+		parts := 64
+		lib.Parallel(parts, workers, func(pi int) {
+			cr := c.Child("range", rangeReq{From: pi * (4096 / parts), To: (pi + 1) * (4096 / parts)}, lib.ChildOpts{Timeout: 3 * time.Hour, Env: []string{"GOMAXPROCS=1", "GOGC=400"}})
+			var rr rangeRes
+			if cr.TimedOut || cr.Died || json.Unmarshal(cr.Out, &rr) != nil {
+				c.Inconclusive("range child %d failed: %.300s", pi, cr.Stderr)
+				return
+			}
+			r := &res{strata: map[uint32]struct{}{}, n: rr.N, noncan: rr.Noncan, bad: rr.Bad, badC: rr.BadC}
+			for _, k := range rr.Strata {
+				r.strata[k] = struct{}{}
 			}
 			merge(r)
 		})
@@ -279,13 +300,38 @@ func run(c *lib.Ctx) {
 				}
 			}
 		} else {
-			for e := uint32(1); e <= 40; e++ {
-				if e != 1 {
-					// keep prev across exponents: (e-1,0x7fffff) < (e,0x008000)
-				}
+			// every canonical positive target, exponent by exponent in parallel; the pairs across exponent boundaries afterwards
+			var amu sync.Mutex
+			lib.Parallel(40, workers, func(k int) {
+				e := uint32(k + 1)
+				var pT, pW *big.Int
+				n := 0
 				for m := uint32(0); m < 0x800000; m++ {
-					check(e<<24 | m)
+					cv := e<<24 | m
+					t := difficulty.CompactToBig(cv)
+					if t.Sign() <= 0 || difficulty.BigToCompact(t) != cv {
+						continue
+					}
+					w := difficulty.CalcWork(cv)
+					if pT != nil {
+						n++
+						if t.Cmp(pT) <= 0 {
+							c.Violation(int(cv), "mono-target", map[string]any{"compact": cv}, "canonical compact order disagrees with target order at %#08x", cv)
+						}
+						if w.Cmp(pW) > 0 {
+							c.Violation(int(cv), "mono-work", map[string]any{"compact": cv}, "CalcWork increases with target at %#08x: %s > %s", cv, w, pW)
+						}
+					}
+					pT, pW = t, w
 				}
+				amu.Lock()
+				adj += n
+				amu.Unlock()
+			})
+			for e := uint32(2); e <= 40; e++ {
+				prevT, prevW = nil, nil
+				check((e-1)<<24 | 0x7fffff)
+				check(e<<24 | 0x008000)
 			}
 		}
 		c.Count("adjacent_canonical_pairs", int64(adj))
@@ -317,6 +363,41 @@ func run(c *lib.Ctx) {
 	c.Sample(map[string]any{"compact": "0x05800012", "decoded": difficulty.CompactToBig(0x05800012).String(), "canonical": fmt.Sprintf("%#08x", difficulty.BigToCompact(difficulty.CompactToBig(0x05800012)))})
 	c.Bulk(int(n)+int(c.Counter("integers"))+int(c.Counter("work_pairs")), "strata")
 	c.RequireEvents("compact_values", 1000)
+}
+
+type rangeReq struct {
+	From int `json:"from"` // chunks of 2^20 compact values
+	To   int `json:"to"`
+}
+
+type rangeRes struct {
+	N      int64    `json:"n"`
+	Noncan int64    `json:"noncan"`
+	Strata []uint32 `json:"strata"`
+	Bad    []string `json:"bad"`
+	BadC   []uint32 `json:"bad_c"`
+}
+
+func init() {
+	lib.RegisterChild("range", func(in []byte) (any, error) {
+		var q rangeReq
+		if err := json.Unmarshal(in, &q); err != nil {
+			return nil, err
+		}
+		r := &res{strata: map[uint32]struct{}{}}
+		workStride = 16
+		for chunk := q.From; chunk < q.To; chunk++ {
+			base := uint64(chunk) << 20
+			for i := uint64(0); i < 1<<20; i++ {
+				checkCompact(uint32(base+i), r)
+			}
+		}
+		out := rangeRes{N: r.n, Noncan: r.noncan, Bad: r.bad, BadC: r.badC}
+		for k := range r.strata {
+			out.Strata = append(out.Strata, k)
+		}
+		return out, nil
+	})
 }
 
 func main() { lib.Main("C20", "exploration", run) }
